@@ -788,19 +788,31 @@ theorem updatedReady_drops_by_one (revision : String) (xs ys : List Pod) (p : Po
     simp only [Option.toList, lruCount_cons, this, Bool.false_eq_true, if_false]
     unfold liveReadyUpdatedCount; simp; omega
 
-/-- **C11 (what the driver evaluates)** — whatever `EnsureBatchPodsReadyAndLabeled` answers (any workload, any pods, any
-    plan, any fault): it issued no write, the counters it worked with are exact (`countersExact`: the size, the
-    workload controller's `updatedReplicas`, the number of live ready pods of the update revision), and if the answer
-    is `Ready` the pods say so (`readyMeansPods`). -/
+/-- **C11 `sts_updated_ready_exact` (what the driver evaluates)** — whatever `EnsureBatchPodsReadyAndLabeled` answers (any
+    workload, any pods, any plan, any fault): the counters `BuildController` left are exact (`countersExact`: the size,
+    the workload controller's `updatedReplicas`, and — wherever the pods are listed — exactly the number of live ready
+    pods of the update revision); it has none only when it answers with an error. -/
+theorem counters_exact (rel : Rel) (batch : Int) (d : Option Wl) (cl : Cluster) (f : Fault) (o : VerdictOut)
+    (h : planeVerdict rel batch d cl f = .val o) :
+    countersSound d cl o = true := by
+  obtain ⟨_, hcases⟩ := planeVerdict_cases rel batch d cl f o h
+  unfold countersSound
+  rcases hcases with ⟨hc, _, hv, _⟩ | ⟨w, r, hd, hr, _, hc, _⟩
+  · cases d <;> simp [hc, hv]
+  · subst hd
+    simp only [hc, countersOf_exact w r cl hr]
+
+/-- **C11 (what the driver evaluates)** — whatever the check answers: it issued no write, and if the answer is `Ready`
+    the pods say so (`readyMeansPods`). -/
 theorem verdict_sound (rel : Rel) (batch : Int) (d : Option Wl) (cl : Cluster) (f : Fault) (o : VerdictOut)
     (h : planeVerdict rel batch d cl f = .val o) :
     verdictSound rel batch d cl o = true := by
   obtain ⟨hw, hcases⟩ := planeVerdict_cases rel batch d cl f o h
   unfold verdictSound
-  rcases hcases with ⟨hc, _, hv, _⟩ | ⟨w, r, hd, hr, _, hc, hrest⟩
-  · simp [hw, hc, isReady, hv]
+  rcases hcases with ⟨_, _, hv, _⟩ | ⟨w, r, hd, hr, _, _, hrest⟩
+  · simp [hw, isReady, hv]
   · subst hd
-    simp only [hw, hc, countersOf_exact w r cl hr, beq_self_eq_true, Bool.true_and]
+    simp only [hw, beq_self_eq_true, Bool.true_and]
     split
     · rename_i hready
       rcases hrest with ⟨hr0, _, _⟩ | ⟨hr0, e, he, _, hv⟩
@@ -980,6 +992,39 @@ theorem verdict_ready_when_pods_ready (rel : Rel) (batch : Int) (w : Wl) (cl : C
           cases he : rel.batches[batch.toNat]? with
           | none => simp [entryOf, hb, he] at hm
           | some e => simp [he] at hp
+
+/-- **no crash (the readiness check)** — like `no_crash` for the three calls: for every workload an API server can hold and
+    every plan whose current batch exists (`callInputOK` of the `UpgradeBatch` call, which reads the same plan entry) the
+    check does not panic, whatever the pods and whatever the fault. -/
+theorem verdict_no_crash (rel : Rel) (batch : Int) (d : Option Wl) (cl : Cluster) (f : Fault) :
+    noCrash rel { call := .upgradeBatch, fault := f, batch := batch, bpNil := false, edit := Edit.none } d
+      (isPanic (planeVerdict rel batch d cl f)) = true := by
+  unfold noCrash
+  cases hp : planeVerdict rel batch d cl f with
+  | val o => simp [isPanic]
+  | panic =>
+    simp only [isPanic, Bool.not_true]
+    unfold planeVerdict at hp
+    by_cases hg : f = .get
+    · simp [build, hg] at hp
+    · cases d with
+      | none => simp [build, hg] at hp
+      | some w =>
+        cases hr : replicasOf w with
+        | none => simp [callInputOK, hr]
+        | some r =>
+          by_cases hl : needsList w = true ∧ f = .list
+          · simp [build, hg, hr, hl] at hp
+          · simp only [build, hg, if_false, hr, hl] at hp
+            by_cases hr0 : r = 0
+            · simp [hr0] at hp
+            · simp only [hr0, if_false] at hp
+              by_cases hb : batch < 0
+              · simp [callInputOK, hr, hr0, entryOf, hb]
+              · simp only [hb, if_false] at hp
+                cases he : rel.batches[batch.toNat]? with
+                | none => simp [callInputOK, hr, hr0, entryOf, hb, he]
+                | some e => simp [he] at hp
 
 /-! ### non-vacuity of the section (tests on literals) -/
 
